@@ -116,6 +116,7 @@ pub fn run(ctx: &Ctx) {
         ("empty", vec![]),
         ("stack3", vec![push(40), push(41), push(42)]),
         ("stack3+mem2", vec![push(40), push(41), push(42), push(2), M::Alloc.into(), S::Pop.into(), push(7), push(0), M::Store.into(), push(8), push(1), M::Store.into()]),
+        ("in-loop", vec![push(2), push(1), asm::Stack::Repeat.into(), push(40)]),
         ("mem9941", vec![push(5), push(9941), M::Alloc.into(), S::Pop.into()]),
         ("mem10240", vec![push(5), push(10240), M::Alloc.into(), S::Pop.into()]),
     ];
@@ -139,10 +140,25 @@ pub fn run(ctx: &Ctx) {
         ("read_parent_range", vec![S::Pop.into(), push(0), push(2), PM::LoadRange.into(), push(2), M::Alloc.into(), S::Pop.into(), push(0), M::Store.into(), push(1), M::Store.into()]),
         ("state_read_in_child", vec![S::Pop.into(), push(4), M::Alloc.into(), S::Pop.into(), push(7), push(1), push(2), push(0), asm::StateRead::KeyRange.into()]),
         ("repeat_in_child", vec![push(1), asm::Stack::Repeat.into(), push(1), M::Alloc.into(), S::Pop.into(), asm::Stack::RepeatEnd.into()]),
+        // sizes (i + 1) % 3 (1, 2, 0, 1, 2, 0, ..); a non-empty child memory holds the index in its first word and minus the index in its last word
+        ("alloc_index_plus_1_mod_3", vec![
+            S::Dup.into(), push(1), Alu::Add.into(), push(3), Alu::Mod.into(), S::Dup.into(), M::Alloc.into(), S::Pop.into(),
+            S::Dup.into(), push(0), asm::Pred::Eq.into(), push(17), S::Swap.into(), T::JumpIf.into(),
+            S::Swap.into(), S::Dup.into(), push(0), M::Store.into(), S::Swap.into(), push(1), Alu::Sub.into(),
+            S::Swap.into(), push(0), S::Swap.into(), Alu::Sub.into(), S::Swap.into(), M::Store.into(),
+            push(3), push(1), T::JumpIf.into(), S::Pop.into(), S::Pop.into()]),
+        // only the child with index 1 / 33 goes further than the others (skips to a later ComputeEnd)
+        ("special_1_goes_further", vec![push(1), asm::Pred::Eq.into(), push(5), S::Swap.into(), T::JumpIf.into(), push(1), M::Alloc.into(), S::Pop.into(), Compute::ComputeEnd.into(), push(2), M::Alloc.into(), S::Pop.into()]),
+        ("special_33_goes_further", vec![push(33), asm::Pred::Eq.into(), push(5), S::Swap.into(), T::JumpIf.into(), push(1), M::Alloc.into(), S::Pop.into(), Compute::ComputeEnd.into(), push(2), M::Alloc.into(), S::Pop.into()]),
+        // even children leave from inside their own repeat loop (unbalanced repeat stack), odd children do not loop
+        ("even_leave_mid_loop", vec![push(2), Alu::Mod.into(), push(8), S::Swap.into(), T::JumpIf.into(), push(5), push(1), asm::Stack::Repeat.into(), push(1), M::Alloc.into(), S::Pop.into(), Compute::ComputeEnd.into(), push(1), M::Alloc.into(), S::Pop.into()]),
+        // odd children store the innermost repeat counter they see (the parent's, when the Compute sits in a parent loop); even children leave from inside a loop of their own
+        ("even_leave_mid_loop_odd_store_counter", vec![push(2), Alu::Mod.into(), push(8), S::Swap.into(), T::JumpIf.into(), push(7), push(1), asm::Stack::Repeat.into(), push(1), M::Alloc.into(), S::Pop.into(), Compute::ComputeEnd.into(),
+            push(1), M::Alloc.into(), asm::Access::RepeatCounter.into(), S::Swap.into(), M::Store.into()]),
         ("nested_compute", vec![S::Pop.into(), push(1), Compute::Compute.into(), S::Pop.into(), Compute::ComputeEnd.into()]),
         ("nested_compute_index_1", vec![push(3), S::Swap.into(), T::JumpIf.into(), push(1), T::HaltIf.into(), push(2), Compute::Compute.into(), S::Pop.into(), Compute::ComputeEnd.into()]),
     ];
-    let breadths: Vec<Word> = vec![1, 2, 3, 0, -1, 40, 41, 100, 257];
+    let breadths: Vec<Word> = vec![1, 2, 3, 0, -1, 40, 41, 100, 257, 1000];
     let suffixes: Vec<(&str, Vec<asm::Op>)> = vec![("none", vec![]), ("push9", vec![push(9)]), ("end+push9", vec![Compute::ComputeEnd.into(), push(9)])];
     for (pn, pre) in &prefixes {
         for (bn, body) in &bodies {
@@ -153,7 +169,15 @@ pub fn run(ctx: &Ctx) {
                         if !with_end && *sn != "none" {
                             continue;
                         }
-                        if (*pn == "mem9941" || *pn == "mem10240" || *sn != "push9") && n >= 40 && !ctx.thorough {
+                        if (*pn == "mem9941" || *pn == "mem10240" || (*sn != "push9" && *pn != "in-loop")) && n >= 40 && !ctx.thorough {
+                            continue;
+                        }
+                        if n >= 1000 && !(bn.starts_with("alloc_index") || bn.starts_with("special") || bn.starts_with("even_") || *bn == "nop") {
+                            continue;
+                        }
+                        // a Compute inside a parent loop: close the loop after the compute region (the loop body is Push(40), Push(n), Compute .. ComputeEnd, Pop)
+                        let in_loop = *pn == "in-loop";
+                        if in_loop && (!with_end || *sn != "none") {
                             continue;
                         }
                         let id = format!("compute/{pn}/{bn}/{n}/{sn}/{}", with_end as u8);
@@ -167,6 +191,10 @@ pub fn run(ctx: &Ctx) {
                         ops.extend(body.clone());
                         if with_end {
                             ops.push(Compute::ComputeEnd.into());
+                        }
+                        if in_loop {
+                            ops.push(S::Pop.into());
+                            ops.push(asm::Stack::RepeatEnd.into());
                         }
                         ops.extend(suf.clone());
                         let want = reference(&ops, c);
